@@ -1217,6 +1217,77 @@ fn run_scenario(sc: &Scenario, ci: u64, w: &mut CaseWriter, viols: &mut Vec<Viol
     nontrivial
 }
 
+#[derive(Clone)]
+struct ChooseAllPlain;
+impl Scheduler for ChooseAllPlain {
+    fn filter_matches(&mut self, _rule: &str, _ruleset: &str, m: &mut Matches) -> bool {
+        m.choose_all();
+        true
+    }
+}
+
+/// fixed scenarios outside the generator's shape (one scheduler, several rulesets / snapshots /
+/// errors raised by the chosen matches themselves)
+fn fixed_probes(viols: &mut Vec<Viol>) -> usize {
+    let mut n = 0;
+    let mut push = |what: String, key: &str, sc: &str| {
+        viols.push(Viol { what, key: key.into(), sc: sc.into(), tag: "fixed".into(), case: 0, step: 0 });
+    };
+    // (a) rule names are unique per ruleset only: two rulesets, both with a rule named "r"
+    {
+        n += 1;
+        let prog = "(ruleset a)\n(ruleset b)\n(relation R (i64))\n(relation S (i64))\n(relation T (i64))\n(rule ((R x)) ((S x)) :ruleset a :name \"r\")\n(rule ((R x)) ((T x)) :ruleset b :name \"r\")\n(R 1)\n(R 2)";
+        let mut eg = egglog::EGraph::default();
+        eg.parse_and_run_program(None, prog).unwrap();
+        let sid = eg.add_scheduler(Box::new(ChooseAllPlain));
+        for rs in ["a", "a", "b", "b"] {
+            let _ = eg.step_rules_with_scheduler(sid, rs);
+        }
+        let (s, t) = (eg.get_size("S"), eg.get_size("T"));
+        if s != 2 || t != 2 {
+            push(format!("one choose-all scheduler stepping rulesets a and b (both hold a rule named \"r\"): S has {s} rows and T has {t}, both must have 2 (every match is offered)"), "C18-same-rule-name-two-rulesets", prog);
+        }
+    }
+    // (b) a match chosen by the scheduler whose action fails stays pending and is applied once the
+    //     cause is repaired by a write between steps
+    {
+        n += 1;
+        let prog = "(ruleset test)\n(function f (i64) i64 :no-merge)\n(relation R (i64))\n(relation S (i64))\n(rule ((R x)) ((S (f x))) :ruleset test :name \"r\" :naive)\n(R 1) (R 2) (R 3) (R 4) (R 5)\n(set (f 1) 10) (set (f 2) 20) (set (f 4) 40) (set (f 5) 50)";
+        let mut eg = egglog::EGraph::default();
+        eg.parse_and_run_program(None, prog).unwrap();
+        let sid = eg.add_scheduler(Box::new(ChooseAllPlain));
+        let first = eg.step_rules_with_scheduler(sid, "test");
+        let _ = eg.parse_and_run_program(None, "(set (f 3) 30)");
+        for _ in 0..2 {
+            let _ = eg.step_rules_with_scheduler(sid, "test");
+        }
+        let s = eg.get_size("S");
+        if first.is_ok() || s != 5 {
+            push(format!("rule (R x) => (S (f x)) with (f 3) missing: first step {}; after (set (f 3) 30) and two more steps S has {s} rows, must have 5 (a chosen match is not dropped by an error raised mid-step)", if first.is_ok() { "succeeded (must fail)" } else { "failed as expected" }), "C18-chosen-match-lost-after-error", prog);
+        }
+    }
+    // (c) push/pop between steps: the scheduler keeps being offered new matches
+    {
+        n += 1;
+        let prog = "(ruleset t)\n(relation R (i64))\n(relation S (i64))\n(rule ((R x)) ((S x)) :ruleset t :name \"r\")\n(R 1)";
+        let mut eg = egglog::EGraph::default();
+        eg.parse_and_run_program(None, prog).unwrap();
+        let sid = eg.add_scheduler(Box::new(ChooseAllPlain));
+        for _ in 0..2 {
+            let _ = eg.step_rules_with_scheduler(sid, "t");
+        }
+        let _ = eg.parse_and_run_program(None, "(push)\n(pop)\n(R 3)");
+        for _ in 0..3 {
+            let _ = eg.step_rules_with_scheduler(sid, "t");
+        }
+        let s = eg.get_size("S");
+        if s != 2 {
+            push(format!("after (push) (pop) (R 3) and three more steps of a choose-all scheduler S has {s} rows, must have 2: the restored e-graph's query rule collects matches into a buffer the scheduler record no longer reads"), "C18-pushpop-disconnects-scheduler", &format!("{prog}\n;; steps, then (push) (pop) (R 3), steps"));
+        }
+    }
+    n
+}
+
 fn main() {
     let o = verif_harness::parse_opts();
     let mut ncases_override: Option<usize> = None;
@@ -1254,6 +1325,7 @@ fn main() {
         dup_choice_calls: 0,
         reoffer_canon_checks: 0,
     };
+    let fixed_n = if o.replay.is_none() { fixed_probes(&mut viols) } else { 0 };
     let mut scenarios: Vec<(Scenario, u64)> = Vec::new();
     if let Some(path) = &o.replay {
         let txt = std::fs::read_to_string(path).expect("replay");
@@ -1345,6 +1417,7 @@ fn main() {
         "err_hist": st.err_hist,
         "violation_key_hist": key_hist,
         "extra_coverage": {
+            "fixed_probes_same_name_rulesets_error_midstep_pushpop": fixed_n,
             "matches_offered": st.offered_total,
             "delayed_matches_applied": st.delayed_applied,
             "delayed_matches_applied_with_stale_id": st.delayed_stale_applied,
